@@ -283,7 +283,7 @@ def random_strategy(tier):
 PARTS = [
     Part("failure-sweep", "enum", check, cases=sweep_cases, exhaustive=True),
     Part("random", "hyp", check, strategy=random_strategy,
-         examples={"quick": 300, "thorough": 2500}, shards={"quick": 4, "thorough": 16}),
+         examples={"quick": 300, "thorough": 12000}, shards={"quick": 4, "thorough": 16}),
 ]
 
 
